@@ -68,19 +68,22 @@ ModelState(c) == [p |-> [r \in PIds |-> c.S.p[r]], o |-> [r \in OIds |-> c.S.o[r
 ModelAct(c)   == [op |-> c.a.op, r |-> c.a.r, v |-> c.a.v, s |-> c.a.s, l |-> SeqRange(c.a.l)]
 
 Judge(c) ==
-  IF c.fail # "" THEN {"MACHINERY.load"}
-  ELSE LET S0 == ModelState(c)  a == ModelAct(c) IN
-  IF ~Within(c.before) \/ ToState(c.before) # S0 THEN {"MACHINERY.load"}
-  ELSE IF ~Applicable(S0, a) THEN {"MACHINERY.not-applicable"}
-  ELSE LET st == Step(S0, a) IN
-    StateClauses(c.before, "load")
+  \* the engine refused the ordinary removals / additions that bring it to the state: nothing to judge
+  \* (a note, not a verdict; the harness gives up only if no case at all can be loaded)
+  IF c.fail # "" THEN {"Core.load-failed"}
+  ELSE LET S0 == ModelState(c)  a == ModelAct(c)
+           loaded == Within(c.before) /\ ToState(c.before) = S0
+           st == Step(S0, a) IN
+    (IF loaded THEN {} ELSE {"Core.load-mismatch"})
+    \cup StateClauses(c.before, "load")
     \cup (IF c.exc # ""
           THEN (IF Canon(c.after) = Canon(c.before) THEN {} ELSE {"C04.model"})
-               \cup (IF st.ok THEN {"Core.rejected"} ELSE {})
+               \cup (IF loaded /\ Applicable(S0, a) /\ st.ok THEN {"Core.rejected"} ELSE {})
           ELSE StateClauses(c.after, "step")
                \* (an action the model refuses may also be accepted as a no-op: an update of a missing
                \*  record with the default value is trimmed away before anything looks for the record)
-               \cup (IF Within(c.after) /\ ToState(c.after) = st.s THEN {}
+               \cup (IF ~loaded \/ ~Applicable(S0, a) THEN {}
+                     ELSE IF Within(c.after) /\ ToState(c.after) = st.s THEN {}
                      ELSE IF st.ok THEN {"Core.effect"} ELSE {"Core.accepted"})
                \cup (IF c.uexc = "" /\ Canon(c.undo) = Canon(c.before) THEN {} ELSE {"C01.model"}))
 
